@@ -206,7 +206,7 @@ func TestVerif_C03_Install(t *testing.T) {
 		if err != nil || len(metas) == 0 {
 			skip("list-a", fmt.Sprintf("%v", err))
 		}
-		bIdx, bTerm, err := b.s.snapshotStore.LatestIndexTerm()
+		bIdx, bTerm, err := snapshot.LatestIndexTerm(filepath.Join(dirB, snapshotsDirName))
 		if err != nil {
 			skip("latest-b", err.Error())
 		}
@@ -312,7 +312,9 @@ func TestVerif_C03_Install(t *testing.T) {
 			}
 			sig := fmt.Sprintf("C03/install/content-differs/%s/%s", res.path, phase)
 			what := "database after a crash during snapshot install matches neither side"
-			if installed && res.path == "fast-path" && res.dump == wantOld {
+			if installed && res.path == "fast-path" {
+				// old content (or, with writes behind the follower's last snapshot whose
+				// log entries are now below the installed index, even less) under index N
 				sig, what = c03KnownInstall, c03KnownInstallWhat
 			}
 			if rec.KnownHit(sig, what) {
